@@ -7,6 +7,25 @@ NOTE = (
 )
 
 CHECKS = {
+    "C01": {
+        "technique": "icontract recording postcondition on the real simulate methods; offline "
+        "oracle over the logged fields: max-principle bounds, x/t monotonicity, comparison-"
+        "principle decay bound from the harness's own discrete Laplacian",
+        "level_text": "Runtime monitoring of every stored level of generated runs (all table "
+        "families, p_f/p_i -> 1, 3..400 nodes, irregular and huge-step grids, schedules). Known "
+        "finding K5 is recognised only for runs that pass the full-step consistency check.",
+        "design_ref": "DESIGN.md section 3, C01",
+        "level_note": NOTE,
+    },
+    "C04": {
+        "technique": "solver-call spy (normwise backward error, convergence flag) + state-based "
+        "backward-Euler residual of every stored step with the mesh constant bracketed by "
+        "interval intersection over the whole run",
+        "level_text": "Runtime monitoring of every step of generated runs; both monitors are "
+        "independent of which linear solver the code uses.",
+        "design_ref": "DESIGN.md section 3, C04",
+        "level_note": NOTE,
+    },
     "C09": {
         "technique": "snapshot/compare wrappers around the real constructors and "
         "rescale_pseudopressure (also on the raising path) + state oracles on the constructed "
